@@ -31,7 +31,7 @@ pub fn corr(run: &mut Run) {
     let n_heavy = n_dir + run.tier.scale(20, 120);
     for it in 0..(n + n_heavy) {
         let heavy = it % 12 == 0 || it < n_dir;
-        let fam = match catch(|| if it < n_heavy { match it % 8 { _ if it >= n_dir => bilinear_family(&mut rng), 0..=3 => join_family(&mut rng, &jts[it % 8..it % 8 + 1]), 4 | 5 => sort_family(&mut rng), _ => assoc_iterate_family(&mut rng) } } else { gen_family(&mut rng, heavy) }) {
+        let fam = match catch(|| if it < n_heavy { match it % 8 { _ if it >= n_dir => bilinear_family(&mut rng), 0..=3 => join_family(&mut rng, &jts[it % 8..it % 8 + 1]), 4 => sort_family(&mut rng), 5 => sort_wide_family(&mut rng), _ => assoc_iterate_family(&mut rng) } } else { gen_family(&mut rng, heavy) }) {
             Ok(Ok(f)) => f,
             _ => {
                 run.count("gen:failed");
